@@ -14,8 +14,9 @@ import Skv.Drv.C10
 import Skv.Drv.C14
 import Skv.Drv.Stall
 import Skv.Drv.BgWork
+import Skv.Drv.Arena
 
-def drivers : List (String × LineDriver) := [("c08", c08Driver), ("c12", c12Driver), ("c04", c04Driver), ("c05", c05Driver), ("ckey", ckeyDriver), ("ckey-judge", ckeyJudgeDriver), ("store", storeDriver), ("c09", c09Driver), ("c19", c19Driver), ("c13", c13Driver), ("c16", c16Driver), ("c16s", c16sDriver), ("locks", locksDriver), ("c18", c18Driver), ("c10", c10Driver), ("c14", c14Driver), ("stall", stallDriver), ("bgwork", bgworkDriver)]
+def drivers : List (String × LineDriver) := [("c08", c08Driver), ("c12", c12Driver), ("c04", c04Driver), ("c05", c05Driver), ("ckey", ckeyDriver), ("ckey-judge", ckeyJudgeDriver), ("store", storeDriver), ("c09", c09Driver), ("c19", c19Driver), ("c13", c13Driver), ("c16", c16Driver), ("c16s", c16sDriver), ("locks", locksDriver), ("c18", c18Driver), ("c10", c10Driver), ("c14", c14Driver), ("stall", stallDriver), ("bgwork", bgworkDriver), ("arena", arenaDriver)]
 
 def main (args : List String) : IO UInt32 := do
   match args with
